@@ -1,5 +1,5 @@
 (* Model/EmRun.v — runners of the C14 correspondence at Qc (engine E1).
-   The square root is a rational approximation (relative error < 2^-39), the Gaussian density is a
+   The square root is a rational approximation (relative error < 2^-38), the Gaussian density is a
    lookup in a table supplied with the case (computed by the harness, independently of the library,
    for the (mean, stddev) pairs that occur). *)
 From Coq Require Import List Arith ZArith QArith Qabs Qcanon Bool.
@@ -9,8 +9,12 @@ Local Open Scope nat_scope.
 
 Definition qsqrt (x : Qc) : Qc :=
   match Qnum (this x) with
-  | Zpos n => let d := Qden (this x) in
-              Q2Qc (Qmake (Z.sqrt (Zpos n * Zpos d * 4 ^ 40)) (d * 2 ^ 40))
+  | Zpos n =>
+      let d := Zpos (Qden (this x)) in
+      (* sqrt(n/d) ~ isqrt(floor(n 4^j / d)) / 2^j with j such that the radicand has >= 80 bits *)
+      let j := Z.max 0 ((80 + Z.log2 d - Z.log2 (Zpos n)) / 2 + 1) in
+      let r := Z.sqrt ((Zpos n * 4 ^ j) / d) in
+      Q2Qc (inject_Z r / inject_Z (2 ^ j))
   | _ => 0%Qc
   end.
 Definition qleb (a b : Qc) : bool := Qle_bool (this a) (this b).
@@ -41,6 +45,22 @@ Definition qetable := table Qc qeleaf.
 Definition qem_iter (xs : xtab) (gd : gtab) (eta : Qc) (t : qetable) (rows : list row) : qetable :=
   em_iter Qc 0%Qc 1%Qc Qcplus Qcmult Qcminus Qcdiv qleb qsqrt qofz q_eps32 q_alpha q_sdfloor
           (qxval xs) (qgdens gd) eta t rows.
+(* approximate engine for circuits with Gaussian leaves (the exact rationals of the variance
+   re-estimate have tens of thousands of bits): the same model, every operation followed by a
+   rounding to 100 significant bits (exact on short dyadic numbers, e.g. all float literals). *)
+Definition rq (x : Qc) : Qc :=
+  let n := Qnum (this x) in
+  let d := Zpos (Qden (this x)) in
+  if (n =? 0)%Z then x else
+  let k := (100 + Z.log2 d - Z.log2 (Z.abs n))%Z in
+  if (k <=? 0)%Z then x else Q2Qc (inject_Z ((n * 2 ^ k) / d) / inject_Z (2 ^ k)).
+Definition radd a b := rq (Qcplus a b).
+Definition rmul a b := rq (Qcmult a b).
+Definition rsub a b := rq (Qcminus a b).
+Definition rdiv a b := rq (Qcdiv a b).
+Definition rem_iter (xs : xtab) (gd : gtab) (eta : Qc) (t : qetable) (rows : list row) : qetable :=
+  em_iter Qc 0%Qc 1%Qc radd rmul rsub rdiv qleb qsqrt qofz q_eps32 q_alpha q_sdfloor
+          (qxval xs) (qgdens gd) eta t rows.
 Definition qem_init (t : qetable) (ds : list (option (draw Qc))) : qetable :=
   em_init Qc 1%Qc Qcplus Qcmult Qcminus q_c01 q_c05 t ds.
 Definition qparams (n : qenode) : list Qc := params_of Qc n.
@@ -65,9 +85,10 @@ Definition em_abs : Q := 1 # 10000000.
 Record ecase := {
   ec_t : qetable; ec_xs : xtab; ec_gd : gtab; ec_eta : Qc; ec_rows : list row;
   ec_exp : list (list Qc);
+  ec_round : bool;   (* use the rounded engine (circuits with Gaussian leaves) *)
   ec_exact : bool; ec_doms : list (nat * list Z); ec_cont : list nat }.
 Definition run_ecase (c : ecase) : list Z :=
-  let t' := qem_iter (ec_xs c) (ec_gd c) (ec_eta c) (ec_t c) (ec_rows c) in
+  let t' := (if ec_round c then rem_iter else qem_iter) (ec_xs c) (ec_gd c) (ec_eta c) (ec_t c) (ec_rows c) in
   (if ec_exact c
    then (if valid_b Qc 0%Qc 1%Qc Qcplus Qc_eq_bool (ec_doms c) (ec_cont c) (qcore t') then 0 else 64)
    else 0)%Z ::
